@@ -7,10 +7,10 @@ import ast
 from ..core import Ctx, RuleResult, finding, short, walk_no_nested
 from ..model import AnalysisError, norm
 from ..mutants import Mut
-from ..rules import accum, loopfresh, canv, dim, fresh
+from ..rules import accum, alias, loopfresh, canv, dim, fresh
 from ..rules.defuse import DefUse
 from ..rules.exc import ExcEngine
-from ..rules.util import callee_name, cfg_of, lin_str, linear, nodes_where
+from ..rules.util import callee_name, cfg_of, lin_str, linear, node_exprs, nodes_where
 from ..tables import CANV_EXCEPTIONS
 
 EXPLANATION = (
@@ -25,6 +25,7 @@ EXPLANATION = (
     ' Added after seed round 3: (9) ACCUM - running positions of the canvas composition loops (shards_trim_sides, CanvasJoin, CanvasCombine, shards_trim_rows, the rle walkers) advance in every continuing iteration, `continue` paths included; (10) the column-frame rule of calc_trim_text (C11.9).'
     " Round 4: the coords shift of pad_trim_left_right / trim is made under exactly the conditions under which the shards are replaced; (11) LOOPFRESH - per-shard state (content_delta's row memo, new_cviews, the running column) is defined anew for every shard."
     " Round-4 triage: (12) content_delta pairs cviews by screen column - the unchanged marker is produced from column lists computed with the shard tails, and both tails are carried forward for every shard consumed or stepped over; each column list pairs a shard's cviews with the tail of the same canvas. Round 5: (13) the two content-iterator sites of shard_body() pass canv.content() the same arguments."
+    ' Round 6: (12c) the shard comparison of shards_delta is reached only under a test ordering the two row counters (row alignment); (14) ALIAS: coords / shortcuts are never shared with the wrapped canvas.'
 )
 NOT_DECIDED = "Cell-for-cell equality with the grid model, the width arithmetic of cutting wide characters, content_delta round trip - statements about values of the shard algebra."
 ASSUMPTIONS = []
@@ -183,6 +184,9 @@ def rule_cut_attr(ctx: Ctx) -> RuleResult:
     return rr
 
 
+_OWN_EXEMPT = {"shards": "CompositeCanvas(canv) shares canv.shards on purpose; every in-place edit is preceded by a copy - decided path by path by FRESHLIST (C06.2c / C02 fresh)"}
+
+
 def rule_delta(ctx: Ctx) -> RuleResult:
     """The delta generators walk the old canvas with an iterator next to the new one."""
     p = ctx.p
@@ -261,6 +265,29 @@ def rule_delta_columns(ctx: Ctx) -> RuleResult:
                         rr.inst(f"{short(c_fi)}: {norm(a, 50)}", True, {"column_computation": norm(a, 60), "tail_belongs_to_the_same_canvas": same})
                         if not same:
                             rr.add(finding("PAIR", c_fi, a, f"`{norm(a, 60)}` computes the columns of `{X}` with the tail `{Y}`, which is carried forward from another shard stream (no `{Y} = shard_body_tail(.., shard_body({X}, {Y}, ..))`): when the two canvases have different tall cviews running, the old canvas's cviews get the new canvas's offsets and a leaf that moved sideways is marked unchanged", construct=f"columns of {X} computed with the other canvas's tail {Y}"))
+                # (c) the two shards compared start on the same *row*: the comparison is reached only on the side of a
+                # test that orders the two row counters (the locals advanced by `+= <rows of a shard>`) such that the
+                # old canvas is not ahead - together with the catch-up loop (old canvas not behind) that is alignment
+                from ..rules.exc import ExcEngine as _EE
+                from ..rules.runpos import _atoms as _at
+
+                counters = sorted({n.target.id for n in c_fi.own_nodes() if isinstance(n, ast.AugAssign) and isinstance(n.op, ast.Add) and isinstance(n.target, ast.Name) and isinstance(n.value, ast.Name) and "rows" in n.value.id})
+                ccfg = cfg_of(c_fi)
+                cnode = next((x for x in ccfg.nodes if any(y is call for e in node_exprs(x) for y in ast.walk(e))), None)
+                if len(counters) == 2 and cnode is not None:
+                    facts = []
+                    for t in ccfg.nodes:
+                        if t.kind != "test" or isinstance(t.stmt, ast.While):
+                            continue
+                        for lab, truth in (("T", True), ("F", False)):
+                            if cnode not in _EE._reach_without_edge(ccfg, t, lab):
+                                facts += _at(t.ast, truth)
+                    aligned = any(set(e) == set(counters) and sorted(e.values()) == [-1, 1] and o in ("<=", ">=", "==") for e, o in facts)
+                    rr.inst(f"{short(c_fi)}: row alignment of {norm(call, 30)}", True, {"row_counters": counters, "ordering_facts_at_the_comparison": [f"{e} {o} 0" for e, o in facts if set(e) <= set(counters)], "aligned": aligned})
+                    if not aligned:
+                        rr.add(finding("PAIR", c_fi, call, f"`{norm(call, 50)}` compares a shard of the new canvas with a shard of the old one without any test on the way that orders the row counters `{counters[0]}` / `{counters[1]}`: the catch-up loop only makes sure the old canvas is not *behind*; when its next shard starts on a later row (content scrolled by one row, same leaf canvas object) the same view in the same column is marked unchanged although it sits on another row", construct="shards compared without row alignment test"))
+                elif cnode is not None and c_fi.name == "shards_delta":
+                    raise AnalysisError(f"shards_delta: expected two row counters advanced by `+= <..rows..>`, found {counters}")
                 # (b) the tails are carried forward
                 tails = []
                 for a in col_args:
@@ -343,6 +370,7 @@ def run(ctx: Ctx):
         rule_delta(ctx),
         rule_delta_columns(ctx),
         rule_shard_body_sites(ctx),
+        alias.run_inplace_own(p, "C02.14", [CV], floor=6, exempt=_OWN_EXEMPT),
         rule_get_or(ctx),
         accum.run_accum(p, "C02.9", "C02", floor=5),
         _trim_frame(ctx),
@@ -352,6 +380,10 @@ def run(ctx: Ctx):
 
 _C = "urwid/canvas.py"
 MUTANTS = [
+    Mut("composite-shares-coords-dict", "urwid/canvas.py", "CompositeCanvas.__init__", "            self.coords.update(canv.coords)", "            self.coords = canv.coords", "ALIAS|canvas.CompositeCanvas.__init__|self.coords shares a foreign object that is edited in place"),
+    Mut("twin-composite-copies-coords-dict", "urwid/canvas.py", "CompositeCanvas.__init__", "            self.coords.update(canv.coords)", "            self.coords = dict(canv.coords)", twin=True),
+    Mut("delta-compares-unaligned-shards", "urwid/canvas.py", "shards_delta", "        if other_num_rows is None or other_done > done:", "        if other_num_rows is None:", "PAIR|canvas.shards_delta|shards compared without row alignment test"),
+    Mut("twin-delta-alignment-as-equality", "urwid/canvas.py", "shards_delta", "        if other_num_rows is None or other_done > done:", "        if other_num_rows is None or other_done != done:", twin=True),
     Mut("shard-body-gap-site-drops-attr-map", _C, "shard_body", "                new_iter = canv.content(trim_left, trim_top, cols, rows, attr_map)\n            else:\n                new_iter = iter_default\n            body.append((0, new_iter, cview))\n        body.append((done_rows, content_iter, tail_cview))", "                new_iter = canv.content(trim_left, trim_top, cols, rows)\n            else:\n                new_iter = iter_default\n            body.append((0, new_iter, cview))\n        body.append((done_rows, content_iter, tail_cview))", "SIB|canvas.shard_body"),
     Mut("delta-old-columns-with-new-tail", _C, "shards_delta", "shard_cview_columns(other_cviews, other_tail)", "shard_cview_columns(other_cviews, shard_tail)", "PAIR|canvas.shards_delta|columns of other_cviews"),
     Mut("left-trim-keeps-coords", _C, "CompositeCanvas.pad_trim_left_right", "                new_top_cviews = [(0, 0, left, rows, None, blank_canvas), *top_cviews]\n", "                new_top_cviews = [(0, 0, left, rows, None, blank_canvas), *top_cviews]\n                self.coords = self.translate_coords(left, 0)\n", "PAIR|canvas.CompositeCanvas.pad_trim_left_right", also=[("\n        self.coords = self.translate_coords(left, 0)\n        self.shards = shards\n", "\n        self.shards = shards\n")]),
